@@ -317,7 +317,11 @@ class ParameterConfigConverter:
       else:
         raise ValueError('DOUBLE type cannot have child parameters')
       if child.child_parameter_configs:
-        cls._set_child_parameter_configs(child_proto, child)
+        # NOTE: `child_proto` was copied into `conditional_parameter_spec`
+        # above, so recurse into the embedded copy.
+        cls._set_child_parameter_configs(
+            conditional_parameter_spec.parameter_spec, child
+        )
       parent_proto.conditional_parameter_specs.extend(
           [conditional_parameter_spec]
       )
